@@ -27,6 +27,8 @@ def main():
     seed = int(os.environ.get('VERIF_SEED', '20261004'))
     if action in ('quick', 'thorough'):
         return harness.check(mod, action, seed)
+    if action == 'digests':
+        return harness.digests(mod, sys.argv[3], seed, int(sys.argv[4]))
     if action == 'replay':
         return harness.replay(mod, sys.argv[3], as_json='--json' in sys.argv)
     print(__doc__)
